@@ -1,7 +1,7 @@
 """
 C08 — Python fallback and Fortran library are interchangeable.
 
-proof     : TamocV/Props/C08.lean — 23 `pair_*` theorems (Python routine = Fortran routine as real
+proof     : TamocV/Props/C08.lean — 29 `pair_*` / `pair_full_*` theorems (Python routine = Fortran routine as real
             functions, all arguments / vector lengths) over models regenerated from BOTH sources on
             every run, + 2 signature-table theorems decided by the kernel
 tie       : translators re-run; Gen.*Py executed at Float against dbm_p.*, Gen.*F against the gfortran
@@ -15,13 +15,13 @@ from common import req, close, relerr, TOL, run_driver
 import mixgen
 
 META = {
-    'text': 'Theorems (Lean 4, over the reals, all arguments and vector lengths): for 23 of the 29 routine pairs the definition regenerated from dbm_p.py equals the definition regenerated from the Fortran source (literal kinds honoured), plus kernel-decided signature tables (every dbm_f.<name> call site resolves in both libraries with identical parameter order and arity). The remaining pairs (coefs, z_pr, density, fugacity, viscosity, cubic_roots) and all 29 on real code are compared by differential execution of dbm_p against a gfortran build of /repo/tamoc/src called through ctypes, over every regime branch.',
-    'note': 'Trusted: Lean kernel + 3 standard axioms; translators py2ir/f2ir (validated every run by executing the generated definitions against the Python functions and the compiled Fortran they were generated from); gfortran -O2 as the Fortran semantics; real arithmetic for doubles. Partial: coefs/z_pr/density/fugacity/viscosity (matrix loops outside the translator subset) and cubic_roots (numpy.roots vs PDAS; no proof of the PDAS algorithm) are decided by differential execution only.',
+    'text': 'Theorems (Lean 4, over the reals, all arguments and vector lengths): for 27 of the 29 routine pairs the definition regenerated from dbm_p.py equals the definition regenerated from the Fortran source (literal kinds honoured; coefs, z_pr, fugacity, density through the general loop/matrix mode with the cubic root finder as a parameter), plus kernel-decided signature tables (every dbm_f.<name> call site resolves in both libraries with identical parameter order and arity). The remaining pairs (viscosity, cubic_roots) and all 29 on real code are compared by differential execution of dbm_p against a gfortran build of /repo/tamoc/src called through ctypes, over every regime branch.',
+    'note': 'Trusted: Lean kernel + 3 standard axioms; translators py2ir/f2ir (validated every run by executing the generated definitions against the Python functions and the compiled Fortran they were generated from); gfortran -O2 as the Fortran semantics; real arithmetic for doubles. Partial: viscosity ((2,1)-array broadcasting outside the translator subset) and cubic_roots (numpy.roots vs PDAS; no proof of the PDAS algorithm) are decided by differential execution only; the pair theorems of z_pr/fugacity/density hold for every root finder, and the two root finders are compared on real code.',
     'technique': 'Lean 4 program-pair equality over two models regenerated from source (Python and Fortran translators) + differential execution through ctypes',
 }
-GEN = ['phys', 'eos', 'sigs']
+GEN = ['phys', 'eos', 'sigs', 'eosfull']
 MODULES = ['TamocV.Props.C08', 'TamocV.Gen.PhysPy', 'TamocV.Gen.PhysF', 'TamocV.Gen.EosPy', 'TamocV.Gen.EosF',
-           'TamocV.Gen.Signatures']
+           'TamocV.Gen.Signatures', 'TamocV.Gen.EosFullPy', 'TamocV.Gen.EosFullF']
 RULE = ('per routine: arguments drawn log-uniformly over the physical ranges (de 1e-5..0.1 m, densities, viscosities, '
         'interfacial tension, slip velocity, diffusivities incl. non-positive sentinels, status +-1, fp_type 0/1, nc 1..6) '
         'plus targeted cases that hit every regime band (Nd, H, Re, omega>0.49, kh_0<0, Vb<0, C_pen=0 / user Peneloux, '
@@ -38,7 +38,8 @@ G = 9.81
 
 def audit_files():
     return ['TamocV/Num.lean', 'TamocV/Real.lean', 'TamocV/Props/C08.lean', 'TamocV/Gen/PhysPy.lean',
-            'TamocV/Gen/PhysF.lean', 'TamocV/Gen/EosPy.lean', 'TamocV/Gen/EosF.lean', 'TamocV/Gen/Signatures.lean']
+            'TamocV/Gen/PhysF.lean', 'TamocV/Gen/EosPy.lean', 'TamocV/Gen/EosF.lean', 'TamocV/Gen/Signatures.lean',
+            'TamocV/Gen/EosFullPy.lean', 'TamocV/Gen/EosFullF.lean']
 
 
 def lu(r, lo, hi):
@@ -252,6 +253,7 @@ def run(ctx, lean_ok):
     # ------------------------------------------------------------------ full EOS routines + cubic_roots (differential only)
     if F is not None:
         neos = ctx.n(150, 5000)
+        full_lines, full_exp = [], []
         for k in range(neos):
             n = r.randint(1, 6)
             fm, d = mixgen.mixture(r, nmin=n, nmax=n)
@@ -268,6 +270,53 @@ def run(ctx, lean_ok):
             ctx.count('omega:' + ('>0.49' if np.any(e['omega'] > 0.49) else '<=0.49'))
             common_args = dict(T=T, P=P, mass=m, Mol_wt=e['Mol_wt'], Pc=e['Pc'], Tc=e['Tc'], omega=e['omega'],
                                Aij=e['Aij'], Bij=e['Bij'], delta_groups=e['delta_groups'], calc_delta=e['calc_delta'])
+            # ---- full-mode generated routines at Float (translator validation): the root finder is an oracle table
+            #      recorded from the real solvers (numpy.roots for the Python model, the compiled cubic_roots for the
+            #      Fortran model)
+            rec = []
+            orig_cr = dbm_p.cubic_roots
+
+            def rec_cr(pp):
+                zz = np.asarray(orig_cr(pp), dtype=complex)
+                rec.append((np.asarray(pp, dtype=float).copy(), zz.copy()))
+                return zz
+            dbm_p.cubic_roots = rec_cr
+            try:
+                with np.errstate(all='ignore'):
+                    full_py = {
+                        'coefs': dbm_p.coefs(T, P, m, e['Mol_wt'], e['Pc'], e['Tc'], e['omega'], e['delta'].copy(), e['Aij'], e['Bij'],
+                                             e['delta_groups'], e['calc_delta']),
+                        'z_pr': dbm_p.z_pr(T, P, m, e['Mol_wt'], e['Pc'], e['Tc'], e['omega'], e['delta'].copy(), e['Aij'], e['Bij'],
+                                           e['delta_groups'], e['calc_delta']),
+                        'fugacity': dbm_p.fugacity(T, P, m, e['Mol_wt'], e['Pc'], e['Tc'], e['omega'], e['delta'].copy(), e['Aij'],
+                                                   e['Bij'], e['delta_groups'], e['calc_delta']),
+                        'density': dbm_p.density(T, P, m, e['Mol_wt'], e['Pc'], e['Tc'], e['Vc'], e['omega'], e['delta'].copy(),
+                                                 e['Aij'], e['Bij'], e['delta_groups'], e['calc_delta'], e['C_pen'], e['C_pen_T']),
+                    }
+            finally:
+                dbm_p.cubic_roots = orig_cr
+            tab_py, tab_f = [], []
+            for pp, zz in rec:
+                tab_py += list(pp) + list(np.real(zz)) + list(np.imag(zz))
+                zf_ = np.asarray(F.call('cubic_roots', a_t=pp)['z']).ravel()
+                tab_f += list(pp) + list(np.real(zf_)) + list(np.imag(zf_))
+
+            def mat(x):
+                x = np.asarray(x, dtype=float)
+                return [x.ravel(), int(x.shape[1])]
+            cd_ = float(e['calc_delta'])
+            base_args = [T, P, m, e['Mol_wt'], e['Pc'], e['Tc'], e['omega']] + mat(e['delta']) + mat(e['Aij']) + mat(e['Bij']) \
+                + mat(e['delta_groups']) + [cd_]
+            dens_args = [T, P, m, e['Mol_wt'], e['Pc'], e['Tc'], e['Vc'], e['omega']] + mat(e['delta']) + mat(e['Aij']) \
+                + mat(e['Bij']) + mat(e['delta_groups']) + [cd_, e['C_pen'], e['C_pen_T']]
+            if n >= 1 and len(full_lines) < 2 * 4 * ctx.n(60, 1500):
+                for nm in ('coefs', 'z_pr', 'fugacity', 'density'):
+                    a_ = dens_args if nm == 'density' else base_args
+                    pre_py = [np.array(tab_py)] if nm != 'coefs' else []
+                    pre_f = [np.array(tab_f)] if nm != 'coefs' else []
+                    full_lines.append(req('EosFullPy.' + nm, *(pre_py + a_)))
+                    full_lines.append(req('EosFullF.' + nm, *(pre_f + a_)))
+                    full_exp.append((nm, flat(full_py[nm]), d, T, P))
             for fn in EOS_FULL:
                 a = dict(common_args)
                 if fn == 'coefs':
@@ -295,6 +344,33 @@ def run(ctx, lean_ok):
                                   'dbm_p.%s and the Fortran %s disagree beyond rounding' % (fn, fn),
                                   {'routine': fn, 'composition': d['composition'], 'delta_mode': d['delta_mode'], 'peneloux': d['peneloux'],
                                    'mass': m.tolist(), 'T': T, 'P': P, 'python': py, 'fortran': f, 'relerr': ee})
+        if lean_ok and full_lines:
+            out2 = run_driver(ctx, 'C08', full_lines)
+            if out2 is not None:
+                badp = badf = 0
+                for i2, (nm, expv, d_, T_, P_) in enumerate(full_exp):
+                    gp = flat(tuple(out2[2 * i2])) if isinstance(out2[2 * i2], list) else None
+                    gf = flat(tuple(out2[2 * i2 + 1])) if isinstance(out2[2 * i2 + 1], list) else None
+                    # group-contribution sums have 225 cancelling terms: looser tolerance in that mode
+                    tol_ = 1e-8 if d_['delta_mode'] == 'groups' else 1e-10
+
+                    def same(g):
+                        return g is not None and len(g) == len(expv) and all(
+                            (not math.isfinite(x) and not math.isfinite(y)) or close(x, y, tol_) for x, y in zip(g, expv))
+                    if not same(gp):
+                        badp += 1
+                        if badp <= 2:
+                            ctx.broken.append(('correspondence', 'Gen.EosFullPy.%s vs dbm_p.%s' % (nm, nm),
+                                               'composition=%r T=%r P=%r model=%r code=%r' % (d_['composition'], T_, P_, gp, expv)))
+                    if not same(gf):
+                        badf += 1
+                        if badf <= 2:
+                            ctx.broken.append(('correspondence', 'Gen.EosFullF.%s vs dbm_p.%s (pair already compared on real code)' % (nm, nm),
+                                               'composition=%r T=%r P=%r model=%r code=%r' % (d_['composition'], T_, P_, gf, expv)))
+                ctx.oblige('correspondence Gen.EosFullPy.{coefs,z_pr,fugacity,density} == dbm_p.* on %d calls' % len(full_exp), badp == 0,
+                           '%d disagreements' % badp)
+                ctx.oblige('correspondence Gen.EosFullF.{coefs,z_pr,fugacity,density} == dbm_p.* on %d calls (root table from the compiled solver)' % len(full_exp),
+                           badf == 0, '%d disagreements' % badf)
         # cubic_roots: PR cubics from random (A,B) and random cubics with prescribed separated roots
         ncub = ctx.n(300, 20000)
         for k in range(ncub):
